@@ -14,7 +14,35 @@ FLOATTXT = ("Modelled, not verified: Rust's Display/FromStr for f64 (the theorem
             "text and bit patterns against the model on every run, including -0, subnormals, 1e300 and infinities); char::is_whitespace (transcribed table); "
             "stack depth of the recursive writer on extremely deep trees. ")
 
+EXACT = ("Modelled, not verified: f64 rounding (the model computes over exact integers; the harness uses lengths that are multiples of 2^-10 so that every "
+         "sum and product the crate forms is exact and compares for exact equality), sqrt (the model returns KF squared; the harness applies sqrt and compares bits), "
+         "FixedBitSet's ordering (which of the two sides is stored cannot be observed once splits are compared as unordered pairs; the model fixes one), "
+         "HashMap/HashSet iteration order (sorted away). ")
+
 CLAIMS = {
+ "C05": dict(
+   text="Kernel-checked theorems on the bitmask model of init_partitions for every tree: the reported set is exactly the set of canonical representatives of "
+        "the splits induced by non-root internal branches with at least two leaves on each side (partitions_exact), without duplicates, a side and its "
+        "complement have the same representative, the trivial-split test is symmetric in the two sides, the stored side depends only on the set of leaf names "
+        "below the branch (transfer principle partitions_congr); Spec-level invariance theorems for child reordering, unary nodes and two- vs three-child "
+        "roots. Tied to the crate by comparing get_partitions with the model on every shape up to a bound crossed with EVERY permutation of the leaf names, "
+        "block-boundary leaf counts and random trees in three arena layouts; oracles on the real code: brute-force split enumeration, four metamorphic invariances.",
+   note=NOTE + EXACT, technique="Lean 4 proofs about the bitmask partition model + differential execution over all name permutations", ref="5 C05"),
+ "C06": dict(
+   text="Kernel-checked theorems on the model of robinson_foulds / robinson_foulds_norm / compare_topologies for all trees: RF is the symmetric-difference "
+        "count of the two split sets or that count plus two, the latter only when both roots have two children and the root split sets differ; equals the count "
+        "whenever a root is not a two-child root; symmetric; zero for identical split sets; equal to the report's value; normalised value is the quotient by the "
+        "total and the count never exceeds the total; different leaf indices are rejected. Tied to the crate on every ordered pair of leaf-labelled shapes up to a "
+        "bound, random pairs and pairs with different leaf sets; oracles: symmetry, renaming, reordering, report agreement, brute-force count, rejection.",
+   note=NOTE + EXACT + "rf_norm with zero splits is the IEEE quotient 0/0 (NaN), pinned by the correspondence.", technique="Lean 4 proofs about the RF model + exhaustive ordered-pair differential execution", ref="5 C06"),
+ "C07": dict(
+   text="Kernel-checked theorems on the model of weighted_robinson_foulds / khuner_felsenstein (squared) / compare_topologies / compare_branch_lengths: both "
+        "distances are the sums over the union of split sets of |difference| resp. squared difference with 0 for an absent split; branches inducing the same split are "
+        "one split with summed length and a missing length poisons the sum; a missing length yields MissingBranchLengths from all three entry points; the report "
+        "carries exactly these values; common rescaling by k multiplies wRF by |k| and KF squared by k squared; the branch listing is exactly only-first / only-second / "
+        "common with those lengths. Tied to the crate on exhaustive and random pairs with exact dyadic lengths (exact equality, bit-equal sqrt); oracles: brute-force "
+        "sums, symmetry, scaling, reordering, report agreement, missing-length error. Symmetry of the sums is decided by oracle and correspondence, not yet by a theorem.",
+   note=NOTE + EXACT, technique="Lean 4 proofs about the weighted-distance model + exact differential execution on dyadic lengths", ref="5 C07"),
  "C01": dict(
    text="Kernel-checked theorem, by structural induction over all trees and all codecs satisfying three laws, that parsing the written form "
         "of any tree in the property's domain yields an arena representing exactly that tree (shape, child order, names, comments, length values), "
